@@ -24,6 +24,26 @@ func init() {
 	register("C20", func(x *X) error {
 		x.UseNormalizedAST()
 
+		// ---- the hand-optimised formatters TRANSLATED to Lean (xlate.go): the model regenerated from the source on
+		// every run; Props/C20Xlate.lean proves them equal to the hand-written model, the driver runs them on every case.
+		// Fuel (one expression per `for` loop, source order) is proved sufficient, never assumed: running out of it is a
+		// panic value and the equalities cover panics.
+		xlateEmitFiles(x, []xlFileSpec{
+			{"proxy/http_headers.go", []xlSpec{
+				{"", "uint16base16", "XUint16", nil, []string{"p0:UInt16:0"}, "Bytes"},
+				// the digit loop of i32toa runs at most 10 times (an int32 has at most 10 decimal digits)
+				{"", "i32toa", "XI32toa", []string{"11"}, []string{"p0:Int:0"}, "Bytes"},
+			}},
+			{"uuid/format.go", []xlSpec{
+				{"", "ToString", "XUuid", nil, []string{"p0:Bytes:[]"}, "Bytes"},
+			}},
+			{"logger/pattern.go", []xlSpec{
+				{"", "hostport", "XHostport", nil, []string{"p0:Bytes:[]"}, "(Bytes × Bytes)"},
+				// digit loop: at most 19 digits; padding loop: at most 128 stores before the bounds check panics
+				{"", "atoi", "XAtoi", []string{"20", "130"}, []string{"p0:Bytes:[]", "p1:Int:0", "p2:Int:0"}, "Unit"},
+			}},
+		})
+
 		// Extraction problems inside a soft section concern change detectors only (Props/C20Pins.lean): they are
 		// reported as `pinNotes`, not as a failure of the extractor.
 		var pinNotes []string
